@@ -260,14 +260,24 @@ func checkUntyped(r *mon.Run, b []byte, ri *refInfo, origin string) {
 			// suffix independence of Split
 			for _, j := range junks[:3] {
 				bj := append(append(make([]byte, 0, len(b)+len(j)), b[:len(b)-len(rest)]...), j...)
-				k2, c2, r2, e2 := rlp.Split(bj)
+				var (
+					k2     rlp.Kind
+					c2, r2 []byte
+					e2     error
+				)
+				if r.Guard("C08:Split:total", c, func() { k2, c2, r2, e2 = rlp.Split(bj) }) {
+					continue
+				}
 				if e2 != nil || k2 != k || !bytes.Equal(c2, content) || !bytes.Equal(r2, j) {
 					viol(r, "C08:suffix:Split:result-depends-on-bytes-after-value", c, "Split(%x ‖ %x) = (%v, %x, %x, %v)", clip(b), j, k2, clip(c2), clip(r2), e2)
 				}
 			}
 			// SplitString / SplitList agree with the kind
-			_, _, es := rlp.SplitString(b)
-			_, _, el := rlp.SplitList(b)
+			var es, el error
+			r.Guard("C08:SplitString/SplitList:total", c, func() {
+				_, _, es = rlp.SplitString(b)
+				_, _, el = rlp.SplitList(b)
+			})
 			if (es == nil) != (k != rlp.List) || (el == nil) != (k == rlp.List) {
 				viol(r, "C08:Split:SplitString-SplitList-disagree-with-kind", c, "Split(%x) kind %v, SplitString err %v, SplitList err %v", clip(b), k, es, el)
 			}
@@ -520,7 +530,10 @@ func checkReader(r *mon.Run, tg *target, b []byte, origin string) {
 	mark(tg, pmReader, b, 0)
 	c := Case{Mode: "reader", Type: tg.Name, Input: b, Origin: origin}
 	p0 := reflect.New(tg.T)
-	err0 := rlp.DecodeBytes(b, p0.Interface())
+	var err0 error
+	if r.Guard(tsig("DecodeBytes", tg, "total"), c, func() { err0 = rlp.DecodeBytes(b, p0.Interface()) }) {
+		return
+	}
 	if len(b) > 0 {
 		p := reflect.New(tg.T)
 		var err error
